@@ -11,6 +11,8 @@ RULE = ('REPLWrapper over the simulated pty child running a scripted line-orient
         'pieces of 1..100000 bytes with seeded delays, torn reads, maxread 1..2000; blocking and awaited (virtual-time asyncio loop). '
         'Oracle: run_command returns exactly the command\'s output (no prompt text, nothing of its neighbours); incomplete input '
         'raises ValueError, the REPL receives exactly one SIGINT for it, and later commands still return exactly their output. '
+        'Added later: verbatim text blocks (blank / indented / trailing-blank lines matter), incomplete commands whose first lines are '
+        'complete and print, multi-line commands handed over with CR LF or bare CR between the lines. '
         'Non-trivial: >= 1 command completed; distinct by trace digest')
 
 ASSUME = ['real bash/python/zsh and bashrc.sh are not exercised: the REPL is a stub with the same prompt protocol',
